@@ -71,7 +71,7 @@ struct Gen {
 	}
 	int  any_alive_dim() {
         std::vector<int> c;
-        for(int D = T.dmin; D <= T.dmax; ++D)
+        for(int D = std::max(1, T.dmin); D <= T.dmax; ++D)
             if(alive_slot(D) >= 0) c.push_back(D);
         return c.empty() ? -1 : rng.pick(c);
 	}
@@ -137,6 +137,7 @@ struct Gen {
 
 	// chain on root (D,slot) whose result has dimensionality wantD (or any if < 0) and, optionally, the extents of `like`
 	bool find_view(int D, int slot, int wantD, MView const* like, bool same_count_only, Chain& c, MView& out, int tries = 12) {
+		if(D < 1 || slot < 0) return false;
 		MArr const& r = M.at(D, slot);
 		if(!r.alive) return false;
 		for(int t = 0; t < tries; ++t) {
@@ -156,6 +157,7 @@ struct Gen {
 
 	// a view with exactly the extents of `like`, by construction: whole root sliced down along each dimension
 	bool fit_view(int D, int slot, MView const& like, Chain& c, MView& out) {
+		if(D < 1 || slot < 0) return false;
 		MArr const& r = M.at(D, slot);
 		if(!r.alive || r.count() == 0 || like.count() == 0) return false;
 		if(like.D == D) {
